@@ -244,7 +244,7 @@ def generate():
 def _check_one(m):
     import importlib
     from sa.norm import Ctx
-    from sa.report import Checker
+    from sa.report import Checker, unlisted_violations, untrusted_violations
     from sa.loader import AnalysisError
     res = {}
     try:
@@ -256,10 +256,14 @@ def _check_one(m):
         mod = importlib.import_module(f"sa.props.{prop.lower()}")
         try:
             mod.run(ck)
-            if ck.violations:
-                res[prop] = "V:" + ",".join(sorted({o.rule for o in ck.violations}))
+            vio = unlisted_violations(ck)          # listed known findings of the tree are not what a mutant is about
+            if vio:
+                res[prop] = "V:" + ",".join(sorted({o.rule for o in vio}))
+            elif untrusted_violations(ck):
+                res[prop] = "E"
         except AnalysisError as e:
-            res[prop] = ("V:" + ",".join(sorted({o.rule for o in ck.violations}))) if ck.violations else "E"
+            vio = unlisted_violations(ck)
+            res[prop] = ("V:" + ",".join(sorted({o.rule for o in vio}))) if vio else "E"
         except Exception as e:
             res[prop] = f"X:{type(e).__name__}"
     return m["id"], res
